@@ -136,21 +136,21 @@ def run(chk):
     # Q = r^-1 * (s*R + (-e % n) * G)   (structure by AST: both candidate expressions identical up to R1/R2)
     from sa import pat
     gen_, hash_ = f3.params[2], f3.params[1]
-    forms = ["numbertheory.inverse_mod(L_r, L_n) * (L_s * L_R + -L_e %% L_n * %s)" % gen_,
-             "numbertheory.inverse_mod(L_r, L_n) * (L_s * L_R + (L_n - L_e) %% L_n * %s)" % gen_,
-             "inverse_mod(L_r, L_n) * (L_s * L_R + -L_e %% L_n * %s)" % gen_]
-    ms = [(n, pat.any_of(n.value, forms)) for n in ast.walk(f3.node) if isinstance(n, ast.Assign)]
-    ms = [(n, b_) for n, b_ in ms if b_ is not None]
-    okq = len(ms) == 2
+    D = pat.defs_of(f3.node)
+    n_ = "%s.order()" % gen_
+    forms = ["numbertheory.inverse_mod(self.r, %s) * (self.s * X_R + -%s %% %s * %s)" % (n_, hash_, n_, gen_),
+             "numbertheory.inverse_mod(self.r, %s) * (self.s * X_R + (%s - %s) %% %s * %s)" % (n_, n_, hash_, n_, gen_),
+             "inverse_mod(self.r, %s) * (self.s * X_R + -%s %% %s * %s)" % (n_, hash_, n_, gen_)]
+    # the point handed to each Public_key(generator, Q): intermediate names are read through their definitions
+    ms = []
+    for c_ in ast.walk(f3.node):
+        if isinstance(c_, ast.Call) and norm_text(c_.func) == "Public_key" and len(c_.args) >= 2:
+            ms.append(pat.any_of(c_.args[1], forms, defs=D))
+    okq = len(ms) == 2 and all(m_ is not None for m_ in ms)
     if okq:
-        b1, b2 = ms[0][1], ms[1][1]
-        okq = all(b1[k] == b2[k] for k in ("L_r", "L_n", "L_s", "L_e")) and b1["L_R"] != b2["L_R"]
-        # roles of the locals: r = self.r, s = self.s, e = the hash argument, n = generator.order()
-        defs = {}
-        for n in ast.walk(f3.node):
-            if isinstance(n, ast.Assign) and len(n.targets) == 1 and isinstance(n.targets[0], ast.Name):
-                defs.setdefault(n.targets[0].id, []).append(norm_text(n.value))
-        okq &= defs.get(b1["L_r"]) == ["self.r"] and defs.get(b1["L_s"]) == ["self.s"] and defs.get(b1["L_e"]) == [hash_] and defs.get(b1["L_n"]) == ["%s.order()" % gen_]
-        # the two R are the two constructed points
-        okq &= all(len(defs.get(b_["L_R"], [])) == 1 and "PointJacobi(" in defs[b_["L_R"]][0] for b_ in (b1, b2))
+        r1, r2 = ms[0]["X_R"], ms[1]["X_R"]
+        okq = norm_text(r1) != norm_text(r2)
+        for r_ in (r1, r2):
+            e_ = D.get(r_.id) if isinstance(r_, ast.Name) else r_
+            okq &= isinstance(e_, ast.Call) and norm_text(e_.func).endswith("PointJacobi")
     chk.ob("R14.3", "both candidates are r^-1 * (s*R + (-e mod n)*G)", okq, loc=q3, key="C14|R14.3|formula", detail="candidate expressions differ from inverse_mod(r, n) * (s * R + (-e % n) * generator)")
